@@ -43,6 +43,15 @@ Theorem C05_every_reachable_lp_state_is_the_replay_of_its_history : forall (p : 
      /\ x_st x = replay p s0 (skipn r0 (x_hist x))                        -- the LP memory = replay of the whole retained history *)
 Proof. exact worker_states_exact. Qed.
 
+(* ... and its history is made of groups [markers of the messages an event sent; that event], the markers of every group being
+   exactly (same events, same order) what the handler outputs on the state the replay reaches before it; every checkpoint
+   reference is a group boundary.  This is what makes silent re-execution skip the right entries and what makes a rollback
+   cancel exactly the messages the undone events sent.
+     lp_wf p x := hist_ok p (snd (base x)) [] (skipn (fst (base x)) (x_hist x)) /\ forall g, In g (x_logs x) -> bnd (x_hist x) (fst g) *)
+Theorem C05_every_reachable_history_is_wellformed : forall (p : prog) (ck : nat) (ops : list wop),
+  Forall (fun x => lp_ok p x /\ lp_wf p x) (k_lps (fold_left (wstep p ck) ops (w_init p))).
+Proof. exact worker_states_wellformed. Qed.
+
 (* one rollback, spelled out: the restored-and-coasted state is the replay of the kept history from the chosen checkpoint *)
 Theorem C05_rollback_state : forall (p : prog) (x : lpx) past ref snap older,
   lp_ok p x -> drop_newer (x_logs x) past = (ref, snap) :: older ->
@@ -53,4 +62,5 @@ Proof. exact rollback_lp_ok. Qed.
 Print Assumptions C05_arena_restore_is_exact.
 Print Assumptions C05_every_reachable_lp_state_is_the_replay_of_its_history.
 Print Assumptions C05_rollback_state.
+Print Assumptions C05_every_reachable_history_is_wellformed.
 Print Assumptions C05_restore_uses_newest_checkpoint_not_after.
